@@ -561,7 +561,18 @@ fn float_tokens(m: &Model, ctx: &mut Ctx) {
                 ctx.oblige("C08.float", &format!("{}:{}", f.name, var), true);
                 let guard = arm.guard.as_ref().map(|(_, g)| tok(g)).unwrap_or_default();
                 let test = format!("{}.is_finite()", var);
-                if !(guard.contains(&test) || body.contains(&format!("if{}", test)) || body.contains(&format!("if!{}", test))) {
+                // the arm guard, evaluated for a value that is not finite, must keep the value out of this arm
+                let guard_excludes = arm.guard.as_ref().map(|(_, g)| {
+                    use crate::eval::{Env, Evaluator, Val};
+                    let consts = crate::rules::util::const_resolver(m);
+                    let hook = |_: &Evaluator, name: &str, _: &[Val]| -> Option<Result<Val, String>> { if name == ".is_finite" { Some(Ok(Val::Bool(false))) } else if name == ".is_infinite" || name == ".is_nan" { Some(Ok(Val::Bool(true))) } else { None } };
+                    let ev = Evaluator { consts: &consts, call_hook: &hook, inline: None };
+                    let mut env = Env::new();
+                    env.insert(var.clone(), Val::Sym("inf".into()));
+                    matches!(ev.eval(g, &mut env), Ok(Val::Bool(false)))
+                }).unwrap_or(false);
+                let _ = &guard;
+                if !(guard_excludes || body.contains(&format!("if{}", test)) || body.contains(&format!("if!{}", test))) {
                     ctx.violate("C08.float", &format!("unguarded:{}", f.name), &f.file, crate::rules::util::span_line(arm),
                         &format!("{} turns the REAL value `{}` into tokens without testing `{}.is_finite()`: a literal beyond the range of f64 (`1e999`, 400 digits, {{mantissa 1, base 10, exponent 400}}) is parsed to infinity, and ToTokens for a non-finite f64 panics", f.name, var, var));
                 }
